@@ -220,6 +220,29 @@ def gen_c07(tier, rng):
                 # frames whose LRC starts with the character '0': a lenient hex parser accepts ' 1' / '+1' in its place
                 low = [f for f in frs if f["bytes"][-4:-3] == b"0" and f not in chosen]
                 chosen += low[:2]
+            if kind == "tcp":
+                # fixed-length data-access PDUs are where a corrupted MBAP length is detectable: one frame per such function code
+                import struct as _st
+                fcs = (1, 2, 3, 4, 5, 6, 22) if d == "req" else (5, 6, 15, 16, 22)
+                items = []
+                for fc in fcs:
+                    body = _st.pack(">HHH", rng.randint(0, 30), rng.randint(0, 65535), rng.randint(0, 65535)) if fc == 22 else \
+                        _st.pack(">HH", rng.randint(0, 30), 0xFF00 if fc == 5 else rng.randint(1, 20))
+                    items.append({"id": "fx%d" % fc, "kind": "tcp", "tid": rng.randint(0, 65535), "pid": 0, "uid": 1, "pdu": [fc] + list(body)})
+                built = F.tlc_build(items)
+                fixedframes = [dict(it, bytes=built[it["id"]], dir=d) for it in items]
+                for f in fixedframes:
+                    b = f["bytes"]
+                    ln = b[4] * 256 + b[5]
+                    for nl in (ln + 1, ln + 2, ln + 3, ln - 1, ln + 7):
+                        if 0 <= nl <= 65535 and nl != ln:
+                            bad = b[:4] + bytes([nl >> 8, nl & 255]) + b[6:]
+                            for ctx in ("after", "both"):
+                                pre = [pool.pick(kind, d, 40)] if ctx == "both" else []
+                                post = [pool.pick(kind, d, 40)]
+                                data, sent = mk_stream(pre + [dict(f, bytes=bad, valid=False)] + post)
+                                traces.append(run_stream("x%d" % k, "c07", kind, d, data, sent, (), [1], False))
+                                k += 1
             for f in chosen:
                 for bad in faults_of(f, rng, tier):
                     ctx = rng.choice(["alone", "before", "after", "both"])
